@@ -175,8 +175,16 @@ func cmBuild(id int, raw json.RawMessage) *Job {
 	// a seeded third of the files arrive as an unsaved edit: the file on disk (and first opened) is an older text, a
 	// didChange replaces the whole document, nothing is saved; hover is then about the text in the editor (and is
 	// asked in that document only: what other files see of an unsaved document's globals is not settled)
-	unsaved := hash64(string(raw), cmSeed+3)%3 == 0
-	if unsaved {
+	hm := hash64(string(raw), cmSeed+3) % 4
+	unsaved := hm == 0
+	// another quarter is edited (two comment lines put in front, so that every line moves) and closed without saving:
+	// the edit is gone with the editor's copy, and what other files show about the file's globals is the saved text again
+	closedAfterEdit := hm == 1
+	if closedAfterEdit {
+		pc.Steps = append(pc.Steps, openStep("f.lua", d.text), openStep("u.lua", other),
+			changeStep("f.lua", 2, 0, 0, 0, 0, "-- typed and thrown away\n-- second line\n"),
+			proto.Step{M: "textDocument/didClose", N: true, P: json.RawMessage(`{"textDocument":{"uri":"file://$ROOT/f.lua"}}`)})
+	} else if unsaved {
 		stale := "-- an older header\nlocal zz = 1 -- an older remark\n"
 		pc.Files["f.lua"] = stale
 		pc.Steps = append(pc.Steps, openStep("f.lua", stale), openStep("u.lua", other), changeStep("f.lua", 2, 0, 0, 2, 0, d.text))
@@ -192,6 +200,9 @@ func cmBuild(id int, raw json.RawMessage) *Job {
 	for i := range d.decls {
 		pc.Steps = append(pc.Steps, proto.Step{M: "textDocument/hover", P: posParams("f.lua", nlines, d.decls[i].col)})
 		d.decls[i].hoverS = len(pc.Steps) - 1
+		if closedAfterEdit {
+			d.decls[i].hoverS = -1 // (the document is closed: only the other file asks)
+		}
 		d.decls[i].hoverS2 = -1
 		if d.decls[i].col2 >= 0 && !unsaved {
 			pc.Steps = append(pc.Steps, proto.Step{M: "textDocument/hover", P: posParams("u.lua", 1, d.decls[i].col2)})
@@ -265,7 +276,9 @@ func cmJudge(c *Ctx, j *Job, res *proto.Result) {
 	var asked []cmDecl
 	for _, dc := range d.decls {
 		dc.where = "f.lua"
-		asked = append(asked, dc)
+		if dc.hoverS >= 0 {
+			asked = append(asked, dc)
+		}
 		if dc.hoverS2 >= 0 {
 			dc.hoverS, dc.where = dc.hoverS2, "u.lua (another file)"
 			asked = append(asked, dc)
